@@ -75,7 +75,7 @@ CHECKS = {
              text='5625 cells (4 roles x up to 9 call forms x 225 pattern vectors), three call sites each (target, similarly named function, same method on another receiver): the reference says matched/unmatched per site and the reported flows of a skeleton program reveal whether the tool treated the site in the role; both missed and spurious matches are violations.',
              note='receiver patterns on interface calls unjudged; identifier kinds type/field/store/channel and value-match not covered; backtrace-point role not covered', ref='§6 C04'),
 }
-NA = []
+NA = [dict(property_id='C06', reason='not claimed yet: the map-iteration-order seam (typed rewrite of every map range in the analyzer packages) is not built; model checking does apply and the check is planned (DESIGN.md section 6 C06)')]
 def main():
     checks = []
     for pid, c in sorted(CHECKS.items()):
